@@ -13,3 +13,6 @@ import InToto.Properties.C11
 #print axioms InToto.C11.layout_encoding_injective
 #print axioms InToto.C11.same_signed_bytes_same_link
 #print axioms InToto.C11.same_signed_bytes_same_layout
+#print axioms InToto.C11.fraction_has_no_signed_bytes
+#print axioms InToto.C11.set_payload_refuses_fraction
+#print axioms InToto.C11.refused_content_leaves_envelope_unchanged
